@@ -12,5 +12,6 @@ import TvNetTcp.Props.C06
 #print axioms TV.C06.fixed_F_C06_6
 #print axioms TV.C06.witness_F_C06_7
 #print axioms TV.C06.fixed_F_C06_7
+#print axioms TV.C06.witness_F_C06_8
 #print axioms TV.C06.fixed_scenarios
 #print axioms TV.C06.C06_partial
